@@ -607,6 +607,11 @@ type c10Combo struct {
 	// SharedWithFit: the unfit method shares its hook with a method that sorts first and that the hook does fit (the
 	// fit is a property of the pair, the file must still be refused)
 	SharedWithFit bool
+	// OperandVariant: "twin-dst" / "twin-src": the hook's destination / source parameter is a DIFFERENT defined type with
+	// exactly the operand's field list (HDTwin = `type HDTwin HD`, HSTwin lists HS's fields again): not the method's own
+	// operand, must be refused; "func-type": the notation names a defined func type of the fitting signature instead of a
+	// function (must be refused: `T(dst, src)` is a conversion)
+	OperandVariant string
 }
 
 func (c c10Combo) legal() bool {
@@ -619,7 +624,7 @@ func (c c10Combo) legal() bool {
 	if c.ExtraPtrMismatch {
 		return false // additional arguments are passed as they are: int is not *int
 	}
-	if c.ExtraVariant == "hook-narrower" || c.ExtraVariant == "variadic" || c.HConcreteErr {
+	if c.ExtraVariant == "hook-narrower" || c.ExtraVariant == "variadic" || c.HConcreteErr || c.OperandVariant != "" {
 		return false
 	}
 	return true
@@ -680,7 +685,16 @@ func c10Method(c c10Combo, idx int, uf *pg.UserFuncs) pg.Method {
 	for _, pos := range []string{"preprocess", "postprocess"} {
 		if c.Pos == "both" || strings.HasPrefix(pos, c.Pos) {
 			uf.NextConcreteErr = c.HConcreteErr
-			name := uf.Hook(pos[:3], "HD", c.HDstPtr, "HS", c.HSrcPtr, hx, c.HErr)
+			hd, hs := "HD", "HS"
+			switch c.OperandVariant {
+			case "twin-dst":
+				hd = "HDTwin"
+			case "twin-src":
+				hs = "HSTwin"
+			case "func-type":
+				uf.NextAsType = true
+			}
+			name := uf.Hook(pos[:3], hd, c.HDstPtr, hs, c.HSrcPtr, hx, c.HErr)
 			m.Notes = append(m.Notes, pg.Notation{Kind: pos, Args: []string{name}})
 		}
 	}
@@ -705,6 +719,17 @@ type HD struct {
 	Unassigned  string
 	Unassigned2 *int
 }
+
+// the same field lists under other names: distinct types
+type HDTwin HD
+
+type HSTwin struct {
+	A int
+	B string
+	C []int
+	P *LInner
+	OnlySrc int
+}
 `
 
 func c10All() []c10Combo {
@@ -725,6 +750,13 @@ func c10All() []c10Combo {
 						c2 := c
 						c2.SharedWithFit = true
 						out = append(out, c2)
+					}
+					if c.legal() {
+						for _, v := range []string{"twin-dst", "twin-src", "func-type"} {
+							c2 := c
+							c2.OperandVariant = v
+							out = append(out, c2)
+						}
 					}
 					if c.HExtras && ex > 0 && (!c.HErr || c.RetErr) {
 						c.ExtraPtrMismatch = true
@@ -871,6 +903,12 @@ func c10Enumeration(env *hx.Env, rec *hx.Recorder, t *testing.T, judge func(*pg.
 			}
 			if c.ExtraVariant == "hook-narrower" {
 				why = "hook whose additional parameters (int, *LInner) cannot take the method's interface{} arguments"
+			}
+			switch c.OperandVariant {
+			case "twin-dst", "twin-src":
+				why = "hook whose operand parameter is a different defined type with the same field list (" + c.OperandVariant + ")"
+			case "func-type":
+				why = "':" + c.Pos + "process' naming a func TYPE instead of a function"
 			}
 			if c.HExtras && c.Extras == 0 {
 				why = "hook with additional parameters on a method without additional arguments"
